@@ -347,6 +347,19 @@ class ProgramModel:
                 if isinstance(f, ast.FunctionDef) and (is_static(f) or is_classmethod(f))}
         return lambda cn, name: self._pkg_class_methods.get((cn, name))
 
+    def any_helper_finder(self, rel=None):
+        """name -> FunctionDef for: a function of the module `rel`, a module-level function defined once in the package, or
+        (dotted `Class.method`) a static / class method of a module-level class defined once in the package"""
+        here = self.function_finder(rel) if rel is not None else (lambda n: None)
+        pkg, cm = self.package_function_finder(), self.package_class_method_finder()
+
+        def find(name):
+            if "." in name:
+                c, m = name.split(".", 1)
+                return cm(c, m)
+            return here(name) or pkg(name)
+        return find
+
     def own_methods(self, cn):
         return [n for n in self.classes[cn].node.body if isinstance(n, ast.FunctionDef)]
 
